@@ -2,6 +2,8 @@
 import random
 from .C03 import _rank_profiles, _pick
 
+THOROUGH_SEEDS = 4
+
 
 def cases(tier, seed):
     rng = random.Random(seed + 4)
